@@ -110,7 +110,7 @@ theorem C15_open_reply_iff_listening (s : LState) (sid : Nat) (hp : s.pending = 
     ((lstep s (.open sid)).reply = some true ↔ s.listening = true) ∧
     ((lstep s (.open sid)).reply = some false ↔ s.listening = false) ∧
     (s.listening = false → (lstep s (.open sid)).st = s) := by
-  cases hl : s.listening <;> simp [lstep, hl, hp] <;> split <;> simp
+  cases hl : s.listening <;> simp [lstep, hl, hp] <;> (repeat' split) <;> simp_all
 
 /-- after the listener was closed (and until somebody listens again) every open is refused and no
 `Accept` can succeed -/
@@ -119,6 +119,27 @@ theorem C15_closed_listener_refuses (s : LState) (sid : Nat) :
     (lstep s' (.open sid)).reply = some false ∧ (lstep s' (.open sid)).st = s' ∧
     (lstep s' .accept).conns = 0 ∧ (lstep s' .accept).errs = 1 ∧ s'.pending = none := by
   simp [lstep]
+
+/-- an `Expect` whose context has ended (or that has returned for any other reason) is never
+handed a stream: a later matching open request is treated like any other — given to a waiting
+`Accept` or kept until one comes — and the handler is not left sending to nobody -/
+theorem C15_cancelled_expect_is_forgotten (s : LState) (sid : Nat) :
+    let s' := (lstep s .cancelExpect).st
+    s'.expecting = none ∧ (lstep s' (.open sid)).xconn = false ∧
+    (s'.listening = true → s'.pending = none → (lstep s' (.open sid)).reply = some true) := by
+  refine ⟨rfl, ?_, ?_⟩
+  · cases hl : s.listening <;> cases hp : s.pending <;> simp [lstep, hl, hp] <;> split <;> simp
+  · intro hl hp
+    simp only [lstep] at hl hp ⊢
+    simp [hl, hp]
+    split <;> simp
+
+/-- a waiting `Expect` gets exactly the stream it asked for, before any `Accept` -/
+theorem C15_expect_takes_its_stream (s : LState) (sid : Nat) (hl : s.listening = true) (hp : s.pending = none)
+    (he : s.expecting = some sid) :
+    (lstep s (.open sid)).xconn = true ∧ (lstep s (.open sid)).conns = 0 ∧
+    (lstep s (.open sid)).reply = some true ∧ (lstep s (.open sid)).st.expecting = none := by
+  simp [lstep, hl, hp, he]
 
 /-- closing the listener ends every waiting `Accept` with an error and drops a stream that was
 still waiting to be accepted -/
